@@ -6,6 +6,9 @@ pub mod c02;
 pub mod c03;
 pub mod c04;
 pub mod c05;
+pub mod c06;
+pub mod c07;
+pub mod c08;
 
 /// (report, rule, explanation, exhaustive-subspace flag)
 pub fn run(prop: &str, ctx: &Ctx) -> Option<(Report, &'static str, &'static str, bool)> {
@@ -15,6 +18,9 @@ pub fn run(prop: &str, ctx: &Ctx) -> Option<(Report, &'static str, &'static str,
         "C03" => (c03::run(ctx), c03::RULE, "", true),
         "C04" => (c04::run(ctx), c04::RULE, "", true),
         "C05" => (c05::run(ctx), c05::RULE, "", true),
+        "C06" => (c06::run(ctx), c06::RULE, "", true),
+        "C07" => (c07::run(ctx), c07::RULE, "", false),
+        "C08" => (c08::run(ctx), c08::RULE, "", true),
         _ => return None,
     })
 }
